@@ -383,6 +383,7 @@ DIGEST_NEW = ("<D as digest::Digest>::new",)
 CHAIN_UPDATE = ("<D as digest::Digest>::chain_update",)
 DIGEST_UPDATE = ("<D as digest::Digest>::update",)
 DIGEST_FINAL = ("<D as digest::Digest>::finalize", "digest::FixedOutput::finalize_fixed", "<D as digest::Digest>::finalize_fixed")
+FINAL_RESET = ("<D as digest::Digest>::finalize_reset", "digest::FixedOutputReset::finalize_fixed_reset")
 MAC_NEW = ("<T as digest::Mac>::new_from_slice",)
 MAC_UPDATE = ("<T as digest::Mac>::update",)
 MAC_CHAIN = ("<T as digest::Mac>::chain_update",)
@@ -721,6 +722,12 @@ def _fold_feeds(ctx, se, h):
 def parse_digest(ctx, se, t, depth=0):
     """SHA-1 / HMAC-SHA1 / MD5 transcript of a finalisation term, or None"""
     name = t[1]
+    if name in FINAL_RESET and len(t) > 3 and se is not None:
+        # `h.finalize_reset()`: the digest of what h absorbed so far (h then starts afresh)
+        old = se.call_old.get((t[3][:2], 0)) if t[3] and t[3][0] == se.fn else None
+        if old is None:
+            return ("raw", "finalize_reset on an untracked state")
+        return parse_digest(ctx, se, ("call", DIGEST_FINAL[0], (canon(ctx, se, old),), t[3]), depth)
     if name in DIGEST_FINAL:
         inputs = []
         h = t[2][0]
@@ -735,6 +742,10 @@ def parse_digest(ctx, se, t, depth=0):
             elif is_call(h) and h[1] in MAC_CHAIN:
                 inputs.append(h[2][1])
                 h = h[2][0]
+            elif h[0] == "after" and is_call(h[1]) and h[1][1] in FINAL_RESET and h[2] == 0:
+                # the state after finalize_reset() is the state `new()` creates
+                h = ("call", DIGEST_NEW[0], (), h[1][3] if len(h[1]) > 3 else ("?", -1))
+                break
             elif is_call(h) and h[1].endswith("::fold") and "Iterator" in h[1] and len(h[2]) == 3 and _fold_feeds(ctx, se, h) is not None:
                 # parts.iter().fold(state, |st, part| st.chain_update(part)): the parts in order
                 inputs.extend(reversed(_fold_feeds(ctx, se, h)))
